@@ -92,7 +92,7 @@ def check_instance(inst, F, ctx, extra):
             check_into(inst, I, ctx, p, 'Into')
     if did:
         ctx.nontrivial.add(tuple(inst.rec['classes'][:5]))
-        tables.check_tables(inst, F, ctx, {'T4'})
+        tables.check_tables(inst, F, ctx, {'T4'} if 'T4' in V.used else set())
         if len(ctx.samples) < 4 and not inst.gapless and 'try_from' in inst.feats:
             ctx.sample({'instance': inst.describe()[:300], 'accept_set_of_try_from': ivl.show(ivl.norm(inst.runs)), 'decided': 'for all n of %s' % inst.repr})
 
